@@ -110,9 +110,13 @@ def mechanism(draw, closed_loops=True, point_masses=True, conservative=False, ma
         if "axis" in m:
             m["b1"], m["b2"] = 0.5 * m["b1"], 0.5 * m["b2"]
         spec["base_motion"] = m
+    if kind == "chain" and not conservative and nb >= 2 and draw(st.integers(0, 2)) == 0:
+        # a sphere-sphere contact element between the first two bodies with radii so small that it never closes: it takes
+        # part in every step (step_callback, active-set logic) without changing the motion
+        spec["idle_contact"] = True
     if kind == "chain" and not conservative:
         revs = [i for i, j in enumerate(joints) if j["type"] == "Revolute"]
-        if revs and draw(st.integers(0, 2)) == 0:
+        if revs and draw(st.booleans()):
             # a drive on a revolute joint: actuator (W_tau la_tau) or a Maxwell element (internal coordinate without
             # velocity partner, like the PID controller's error integral)
             spec["drive"] = {"joint": draw(st.sampled_from(revs)), "type": draw(st.sampled_from(["Motor", "PD", "PID", "Maxwell"])),
@@ -193,6 +197,9 @@ def build_mechanism(spec, t0=0.0, state=None, consistent=True, opts=None):
             es = {"type": "KelvinVoigt" if sp["d"] > 0 else "Spring", "k": sp["k"], "d": sp["d"], "l_ref": sp["l_ref"],
                   "compliance": bool(sp.get("compliance", False))}
             system.add(sysbuild.make_force_law(es, tpi))
+        if spec.get("idle_contact") and len(bodies) >= 2:
+            from cardillo.contacts import Sphere2Sphere
+            system.add(Sphere2Sphere(bodies[0], bodies[1], 0.01, 0.01, 0.3, e_N=0.0, name="idle_contact"))
         if "drive" in spec:
             dr = spec["drive"]
             jn = objs["joints"][dr["joint"]]
